@@ -450,6 +450,7 @@ Bracketed(evs, q, mode) ==
   IF q > Len(evs) THEN mode = "out"
   ELSE LET ev == evs[q] IN
     CASE IsDiag(ev) -> Bracketed(evs, q + 1, mode)
+      [] ev.k = "FrontMatter" -> q = 1 /\ Bracketed(evs, q + 1, mode)
       [] ev.k \in {"Metadata", "Section"} -> mode = "out" /\ Bracketed(evs, q + 1, mode)
       [] ev.k = "Start" -> mode = "out" /\ Bracketed(evs, q + 1, ev.b)
       [] ev.k = "End" -> mode = ev.b /\ Bracketed(evs, q + 1, "out")
@@ -482,6 +483,7 @@ Payload(ev) ==
     [] ev.k = "Cookware" -> [k |-> "Cookware", mods |-> ev.mods, name |-> ev.name.txt, alias |-> TxtOf(ev.alias), q |-> QPayload(ev.q),
                              note |-> TxtOf(ev.note)]
     [] ev.k = "Timer" -> [k |-> "Timer", name |-> TxtOf(ev.name), q |-> QPayload(ev.q)]
+    [] ev.k = "FrontMatter" -> [k |-> "FrontMatter", txt |-> ev.txt]
     [] OTHER -> [k |-> ev.k, cls |-> ev.cls]
 NonDiag(evs) == SelectSeq(evs, LAMBDA ev : ~IsDiag(ev))
 Diags(evs)   == SelectSeq(evs, IsDiag)
